@@ -108,8 +108,11 @@ func RunIface(c IfaceCase, out *Outcome, emit func(Sent)) {
 		h.mu.Lock()
 		n := h.nseq
 		h.mu.Unlock()
-		return fmt.Sprintf("%s|%d", AdjKey(h.Adjs()), n)
+		seq, _, _, _ := h.OwnLSP()
+		return fmt.Sprintf("%s|%d|%d", AdjKey(h.Adjs()), n, seq)
 	}
+	// leave nothing behind that could fire while the next scenario runs in this process
+	defer func() { h.Settle(read) }()
 	step := func(n int) {
 		for i := 0; i < n; i++ {
 			h.Advance(time.Second)
@@ -134,6 +137,9 @@ func RunIface(c IfaceCase, out *Outcome, emit func(Sent)) {
 		if !up && i > 0 {
 			everDown = true
 		}
+		// the event may have queued work for a goroutine (LSP regeneration): let it happen now, so
+		// that a crash there is attributed to this event
+		h.Settle(read)
 		step(c.Adv)
 		if pi, txt := Guard(func() { h.Adjs(); h.S.GetLSDB(); h.S.GetInterfaceNames() }); pi != nil {
 			out.Violate(clause("panic"), feat("event", "api-after-"+ev, "panic", pi.Msg, "at", pi.At), "scenario %s: GetAdjacencies/GetLSDB after event #%d panicked: %s", c, i+1, txt)
@@ -176,6 +182,26 @@ func RunIface(c IfaceCase, out *Outcome, emit func(Sent)) {
 		}
 	}
 	out.Count("hello_checks", 1)
+	countHellos := func() {
+		for _, s := range h.Take() {
+			if s.Iface == "eth0" && cur != nil && s.Gen == cur.gen && len(s.Raw) > 4 && s.Raw[4] == PDUP2PHello {
+				if p, perr := Parse(s.Raw); perr == nil && p.Hello.Sys == dutSys {
+					hellos++
+				}
+			}
+		}
+	}
+	if hellos == 0 && cur != nil && !cur.Closed() {
+		// negative decisions get a real-time grace period: the ticks were delivered, a live sender
+		// goroutine only needs to be scheduled
+		for i := 0; i < 500 && hellos == 0; i++ {
+			time.Sleep(time.Millisecond)
+			countHellos()
+		}
+		if hellos > 0 {
+			out.Count("late_hellos", 1)
+		}
+	}
 	if hellos == 0 {
 		why := fmt.Sprintf("%d ethernet handle(s) were created for eth0, the server holds #%d", len(all), genOf(cur))
 		if cur != nil && cur.Closed() {
@@ -190,6 +216,11 @@ func RunIface(c IfaceCase, out *Outcome, emit func(Sent)) {
 		out.Violate(clause("no-adjacency-after-up"), feat("reup", reup, "rx", "no-handle"), "scenario %s: the server holds no ethernet handle for eth0 after link up", c)
 		return
 	}
+	out.Count("adjacency_checks", 1)
+	if cur.Closed() {
+		out.Violate(clause("no-adjacency-after-up"), feat("reup", reup, "rx", "handle-closed"), "scenario %s: link is up but the ethernet handle the server holds for eth0 (#%d of %d) is closed: nothing can be received, no adjacency can form", c, cur.gen, len(all))
+		return
+	}
 	// a neighbor speaks on the wire (the real receive path, not the synchronous hook)
 	circ := h.CircuitID("eth0")
 	msgs := [][]byte{
@@ -198,16 +229,25 @@ func RunIface(c IfaceCase, out *Outcome, emit func(Sent)) {
 		NbrHello(nbrASys, 0xa9fe6400, 30, &ThreeWay{State: AdjUp, HasExt: true, ExtCircuit: 7, HasNeighbor: true, NbrSys: dutSys, HasNbrCircID: true, NbrCircuit: circ}),
 	}
 	in0, out0 := cur.Rx()
+	consumed := 0
 	for k, m := range msgs {
 		cur.SendFromRemote(nbrAMAC, WithLLC(m))
-		h.Settle(func() string {
+		// the receiver goroutine reads the next frame only after it processed the previous one:
+		// "frame k delivered and RecvPacket entered again" proves frame k was fully processed
+		deadline := time.Now().Add(5 * time.Second)
+		ok := false
+		for time.Now().Before(deadline) {
 			in, o := cur.Rx()
-			return fmt.Sprintf("%d/%d|%s", in, o, AdjKey(h.Adjs()))
-		})
-		_, o := cur.Rx()
-		if o-out0 < k+1 {
+			if o-out0 >= k+1 && in-o >= 1 {
+				ok = true
+				break
+			}
+			time.Sleep(200 * time.Microsecond)
+		}
+		if !ok {
 			break
 		}
+		consumed++
 	}
 	in1, out1 := cur.Rx()
 	st := "absent"
@@ -216,14 +256,13 @@ func RunIface(c IfaceCase, out *Outcome, emit func(Sent)) {
 			st = StateName(a.State)
 		}
 	}
-	out.Count("adjacency_checks", 1)
 	if st != "up" {
 		rx := "consumed"
-		if out1-out0 < len(msgs) {
+		if consumed < len(msgs) {
 			rx = "not-consumed"
 		}
 		out.Violate(clause("no-adjacency-after-up"), feat("reup", reup, "rx", rx),
-			"scenario %s: link is up; a neighbor sent 3 valid hellos (down, init naming us, up naming us) on the current ethernet handle; adjacency is %s, want up. Receive path: RecvPacket entered %d→%d times, delivered %d→%d of 3 frames", c, st, in0, in1, out0, out1)
+			"scenario %s: link is up; a neighbor sent valid hellos (down, init naming us, up naming us) on the current ethernet handle; %d of 3 were processed; adjacency is %s, want up. Receive path: RecvPacket entered %d→%d times, delivered %d→%d frames", c, consumed, st, in0, in1, out0, out1)
 	} else {
 		out.Count("adjacency_formed", 1)
 	}
